@@ -160,3 +160,11 @@ Qed.
 Lemma srctext_lines_witness : let Ls := [bs "  A la carte  "; [x09; xa0] ++ bs "5 EUR"; bs "Fin"] in
   forallb in_frag Ls = true /\ doc_spec_lines Ls = bs "<p>A la carte   " ++ [xa0] ++ bs "5 EUR Fin</p>" /\ doc_code_lines Ls = bs "<p>A la carte   5 EUR Fin</p>".
 Proof. vm_compute. repeat split. Qed.
+
+Lemma ctx_lines_exact pre post Ls : (forall L, In L Ls -> in_frag L = true) ->
+  (ctx_code_lines pre post Ls = ctx_spec_lines pre post Ls <-> forall L, In L Ls -> no_byte_space_lead L = true).
+Proof.
+  intros Hf. rewrite <- (lines_exact Ls Hf). unfold ctx_code_lines, ctx_spec_lines, doc_code_lines, doc_spec_lines. split; intros E.
+  - apply app_inv_head in E. apply app_inv_tail in E. rewrite E. reflexivity.
+  - apply app_inv_head in E. apply app_inv_tail in E. rewrite E. reflexivity.
+Qed.
